@@ -729,6 +729,9 @@ func parseStringLiteral(literal string) (string, error) {
 			var size int
 			value, size = utf8.DecodeRuneInString(str)
 			str = str[size:] // \ + <character>
+			if value == '\u2028' || value == '\u2029' {
+				continue // line continuation
+			}
 		} else {
 			str = str[2:] // \<character>
 			switch chr {
